@@ -63,6 +63,8 @@ def run(ctx):
             variants["%s_%s" % (cn, tn)] = dict(copts, tags=tags)
     variants["extra_caps"] = {"extra_imports": True, "capitalizations": ["ID", "URL", "HTML"]}
     variants["extra_minsized"] = {"extra_imports": True, "min_sized_ints": True}
+    variants["only_models_minsized"] = {"only_models": True, "min_sized_ints": True}
+    variants["only_models_caps"] = {"only_models": True, "capitalizations": ["ID", "URL", "HTML"]}
     b = Batch(ctx, "c16")
     for si, sc in enumerate(schemas):
         for vn, opts in variants.items():
@@ -112,6 +114,14 @@ def run(ctx):
                 extra = [i for i in om["imports"] if i[1] not in used]
                 if extra:
                     viol(si, vn, "--only-models output imports %s" % extra)
+        # ... also next to another option: --only-models next to --min-sized-ints / --capitalization declares what that option alone declares
+        for vn, other in (("only_models_minsized", "minsized"), ("only_models_caps", "caps")):
+            om, oc = sc_of[vn]
+            ov, _ = sc_of[other]
+            if types_only(om) != types_only(ov):
+                viol(si, vn, "--only-models changes the type declarations when combined with %s" % other, {"types_with_option": types_only(ov)[:6], "types": types_only(om)[:6]})
+            elif om["methods"] or om["funcs"] or om["vars"]:
+                viol(si, vn, "--only-models (with %s) emits methods/functions/variables" % other)
         # --tags: only the struct tags change
         for vn in ("tags_json", "tags_x"):
             tv, tcse = sc_of[vn]
@@ -168,7 +178,10 @@ def run(ctx):
     # flag wiring: the CLI with a flag == the library with the corresponding option
     cli_runs, cli_meta = [], []
     flagmap = {"base": [], "only_models": ["--only-models"], "tags_json": ["--tags", "json"], "caps": ["--capitalization", "ID,URL,HTML"],
-               "extra": ["--extra-imports"], "rootname": ["--schema-root-type", "=Renamed", "--schema-output", "=-"]}
+               "extra": ["--extra-imports"], "rootname": ["--schema-root-type", "=Renamed", "--schema-output", "=-"],
+               "minsized": ["--min-sized-ints"], "only_models_minsized": ["--only-models", "--min-sized-ints"], "only_models_extra": ["--only-models", "--extra-imports"],
+               "extra_minsized": ["--extra-imports", "--min-sized-ints"], "only_models_caps": ["--only-models", "--capitalization", "ID,URL,HTML"],
+               "extra_caps": ["--extra-imports", "--capitalization", "ID,URL,HTML"]}
     for si in range(min(4, len(schemas))):
         for vn, flags in flagmap.items():
             cid = "s%dv%s" % (si, vn.replace("_", ""))
